@@ -11,6 +11,8 @@ struct Tr<'u> {
     cur_file: String,
     /// notes for the header (omitted lets, dropped fields, observers)
     notes: Vec<String>,
+    /// opaque calls met in the function being translated: (callee, parameter name, type)
+    opaque: Vec<(String, String, Ty)>,
 }
 
 fn norm(ts: impl ToTokens) -> String {
@@ -23,10 +25,10 @@ fn tok_hash(ts: impl ToTokens) -> String {
 
 impl<'u> Tr<'u> {
     fn err<T>(&self, sp: Span, msg: impl Into<String>) -> R<T> {
-        Err(TErr { file: self.cur_file.clone(), line: sp.start().line, msg: msg.into() })
+        Err(TErr { file: self.cur_file.clone(), line: sp.start().line, msg: msg.into(), excluded: false })
     }
     fn err_at<T>(&self, file: usize, sp: Span, msg: impl Into<String>) -> R<T> {
-        Err(TErr { file: self.u.files[file].clone(), line: sp.start().line, msg: msg.into() })
+        Err(TErr { file: self.u.files[file].clone(), line: sp.start().line, msg: msg.into(), excluded: false })
     }
     fn emit(&mut self, coq: &str, text: String, origin: String) {
         self.out.push(Emitted { coq: coq.to_owned(), text, origin });
@@ -137,9 +139,19 @@ impl<'u> Tr<'u> {
         let shape = self.spec.shape_only.iter().any(|s| s == name);
         let mut variants = Vec::new();
         let mut dropped = Vec::new();
+        let subset = self.spec.enum_subset.get(name).cloned();
+        let mut excluded = Vec::new();
         for v in &e.variants {
-            if !cfg_keep(&v.attrs) {
-                continue;
+            match cfg_state(&v.attrs) {
+                Some(true) => {}
+                Some(false) => continue,
+                None => return self.err(v.span(), "cfg predicate on a variant is not decided (see cfg_features)"),
+            }
+            if let Some(keep) = &subset {
+                if !keep.iter().any(|k| v.ident == k) {
+                    excluded.push(v.ident.to_string());
+                    continue;
+                }
             }
             if v.discriminant.is_some() {
                 return self.err(v.span(), "explicit discriminant");
@@ -184,8 +196,15 @@ impl<'u> Tr<'u> {
         if !dropped.is_empty() {
             self.notes.push(format!("shape only: fields omitted from {name}: {}", dropped.join(", ")));
         }
+        if let Some(keep) = &subset {
+            self.notes.push(format!(
+                "variant subset: {name} is restricted to {} ({} other variants are left out; functions over it are the restrictions to these variants)",
+                keep.join(", "),
+                excluded.len()
+            ));
+        }
         let origin = format!("{}:{} enum {name} {}", self.cur_file, e.ident.span().start().line, tok_hash(&e.variants));
-        self.types.insert(name.to_owned(), TypeInfo::Enum(EnumInfo { variants, derives: derives(&e.attrs) }));
+        self.types.insert(name.to_owned(), TypeInfo::Enum(EnumInfo { variants, derives: derives(&e.attrs), excluded }));
         self.emit(name, text, origin);
         Ok(Ty::Enum(name.to_owned()))
     }
@@ -459,6 +478,6 @@ impl<'u> Tr<'u> {
 
 impl Spec {
     fn result_alias_error(&self) -> Option<String> {
-        None
+        self.result_error.clone()
     }
 }
